@@ -27,7 +27,26 @@ from .sim_aoef import AoefSim
 
 SAMPLE_RATES = [8000, 44100, 7, 7919, 12345, 250000, 384000, 22050, 1, 16000]
 TIME_EXPANSIONS = [1.0, 1.0, 10.0, 0.5, 2.5, 0.1]
-AUDIO_FILES = ["a.wav", "sub dir/b.wav", "ünï/c.wav"]
+AUDIO_FILES = ["a.wav", "sub dir/b.wav", "ünï/c.wav", "sub dir/e.flac"]
+
+
+def is_flac(f):
+    return AUDIO_FILES[f % len(AUDIO_FILES)].endswith(".flac")
+
+
+def flac_bytes(values: np.ndarray, sr: int, bits: int) -> bytes:
+    """A FLAC stream (lossless, whole-number samples of 16 or 24 bits) holding
+    exactly these frames, written by libsndfile in the scheduler process. The
+    file is compressed, so there is no byte arithmetic to model: it holds the
+    frames it was made from or it is replaced as a whole."""
+    import io as _io  # noqa: PLC0415
+
+    import soundfile as sf  # noqa: PLC0415
+
+    data = values.astype(np.int16) if bits == 16 else (values << 8).astype(np.int32)
+    buf = _io.BytesIO()
+    sf.write(buf, data, sr, format="FLAC", subtype=f"PCM_{bits}")
+    return buf.getvalue()
 
 
 PCM_GUID = bytes.fromhex("0100000000001000800000aa00389b71")
@@ -192,11 +211,14 @@ class AudioSim(AoefSim):
         st = self.afiles[f]
         path = self.apath(f)
         os.makedirs(os.path.dirname(path), exist_ok=True)
-        raw = (
-            wav_header(st["sr"], st["ch"], st["header"], st["bits"],
-                       st.get("layout", "plain"), st.get("enc", "pcm"))
-            + pcm_bytes(st["frames"], st["bits"], st.get("enc", "pcm"))[: st["payload_bytes"]]
-        )
+        if st.get("container") == "flac":
+            raw = flac_bytes(st["frames"], st["sr"], st["bits"])
+        else:
+            raw = (
+                wav_header(st["sr"], st["ch"], st["header"], st["bits"],
+                           st.get("layout", "plain"), st.get("enc", "pcm"))
+                + pcm_bytes(st["frames"], st["bits"], st.get("enc", "pcm"))[: st["payload_bytes"]]
+            )
         if st["broken"]:
             raw = raw[: st["broken"]]
         with open(path, "wb") as fp:
@@ -234,9 +256,17 @@ class AudioSim(AoefSim):
         enc = "pcm"
         if bits == "f32":
             bits, enc = 32, "float"
+        container = "flac" if is_flac(op["f"]) else "wav"
+        if container == "flac":
+            # what the format can hold: 16 or 24 bit whole numbers, at least
+            # one frame (libsndfile 1.2.2 does not recognise an empty stream),
+            # rates below 655350 Hz
+            bits, enc = (24 if bits in (24, 32) else 16), "pcm"
+            op = dict(op, frames=max(op["frames"], 1), sr=min(op["sr"], 655_349))
         vbits = 16 if enc == "float" else bits
         frames = sample_values(op["salt"], 0, op["frames"], op["ch"], vbits)
         self.afiles[op["f"]] = {
+            "container": container,
             "sr": op["sr"], "ch": op["ch"], "header": op["frames"],
             "salt": op["salt"], "frames": frames, "bits": bits,
             "enc": enc, "vbits": vbits,
@@ -248,6 +278,7 @@ class AudioSim(AoefSim):
         # of something else
         for r in [r for r, rec in self.recs.items() if rec["file"] == op["f"]]:
             del self.recs[r]
+        self.probes.hit(f"file:{container}")
         self.probes.hit(f"file:{enc}-{bits}")
         self.probes.hit(f"file:header-{op.get('layout', 'plain')}")
         if op["frames"] >= 65_536:
@@ -262,6 +293,9 @@ class AudioSim(AoefSim):
     def do_truncate(self, op):
         st = self.afiles.get(op["f"])
         if st is None:
+            return self.record(op, "skipped")
+        if st.get("container") == "flac":
+            # no model of a compressed stream cut short
             return self.record(op, "skipped")
         total = st["payload_bytes"]
         keep = (total * op["permille"]) // 1000 + op.get("extra_bytes", 0)
@@ -282,7 +316,7 @@ class AudioSim(AoefSim):
         more = sample_values(st["salt"], have, op["frames"], st["ch"], st["vbits"])
         st["frames"] = np.concatenate([st["frames"], more])
         st["payload_bytes"] = st["frames"].size * st["bits"] // 8
-        if op.get("rewrite_header", True):
+        if op.get("rewrite_header", True) or st.get("container") == "flac":
             st["header"] = len(st["frames"])
             self.faults_fired.hit("file:grown")
         else:
@@ -899,6 +933,8 @@ def gen_ops(rng, cfg, seed_tag):
         frames = rng.choice([0, 1, 2, rng.randint(0, cfg["max_frames"]),
                              rng.randint(0, cfg["max_frames"])])
         long_file = frames > 300_000
+        if is_flac(f):
+            frames, sr = max(frames, 1), min(sr, 655_349)
         ops.append({"op": "create", "f": f, "sr": sr,
                     "ch": 1 if long_file else rng.choice(cfg["channels"]),
                     "frames": frames, "salt": rng.randrange(1 << 16),
